@@ -20,8 +20,8 @@ META = dict(
     trusted_base=['PT2/PT3 (transition probabilities of the CTMC; coalescent = that CTMC) textbook, modelled',
                   'fixExp ~ exp (driver selftest)', 'scipy.linalg.expm / IEEE doubles'],
     assumptions=['cdf compared at 1e-9 absolute; quantile through |F_model(q_real) - q| <= 1.2e-5 (precision of the '
-                 'bisection); pdf at 1e-4 relative + 1e-5/q99 absolute (the code differentiates numerically with dx = q99/1e10, which carries float cancellation noise eps/dx); '
-                 'integral of 1-cdf by composite Simpson at 2e-5 relative'],
+                 'bisection); pdf at 2e-3 relative + 1e-4/q99 absolute (the code differentiates numerically with dx = q99/1e10; two independent expm evaluations of accuracy ~1e-13 divided by dx give noise of that size - observed up to 3e-4 relative on the unchanged tree); '
+                 'integral of 1-cdf by Gauss-Legendre on geometric sub-intervals of every epoch at 2e-5 relative'],
 )
 
 
@@ -90,7 +90,7 @@ def compare(ctx, cfg, pg, state_max, rng):
         want = float((d[1] - d[0]) / (2 * h))
         got = float(th.pdf(t))
         # the code's finite difference (dx = q99 / 1e10) carries float cancellation noise of about eps / dx
-        if not abs(got - want) <= 1e-4 * abs(want) + 1e-5 / float(q99) + 1e-6:
+        if not abs(got - want) <= 2e-3 * abs(want) + 1e-4 / float(q99) + 1e-6:
             ctx.violation('pdf', cfg=cfg, t=t, expected=want, observed=got)
         if got < 0:
             ctx.violation('pdf-negative', cfg=cfg, t=t, observed=got)
@@ -102,12 +102,16 @@ def compare(ctx, cfg, pg, state_max, rng):
             # split the integral at the epoch boundaries, Simpson on each piece
             cuts = sorted({0.0, T} | {e['start'] for e in cfg['epochs'] if e['start'] < T})
             total = 0.0
+            gx, gw = np.polynomial.legendre.leggauss(16)
             for a, b in zip(cuts[:-1], cuts[1:]):
-                # geometric refinement towards the tail handled by many points
-                m = 2000
-                xs = np.linspace(a, b, 2 * m + 1)
-                ys = 1.0 - np.array(th.cdf(xs), dtype=float)
-                total += (b - a) / (6 * m) * (ys[0] + ys[-1] + 4 * ys[1::2].sum() + 2 * ys[2:-1:2].sum())
+                # 1 - cdf is a sum of decaying exponentials on each piece: Gauss-Legendre on geometrically growing
+                # sub-intervals resolves every rate scale
+                J = 30
+                edges = a + (b - a) * (2.0 ** np.arange(J + 1) - 1) / (2.0 ** J - 1)
+                for lo, hi in zip(edges[:-1], edges[1:]):
+                    xs = 0.5 * (hi - lo) * gx + 0.5 * (hi + lo)
+                    ys = 1.0 - np.array(th.cdf(xs), dtype=float)
+                    total += 0.5 * (hi - lo) * float(np.dot(gw, ys))
             if not abs(total - mean) <= 2e-5 * abs(mean) + 1e-9 and T < 1e4:
                 ctx.violation('integral-mean', cfg=cfg, integral=total, mean=mean, t_max=T)
             ctx.count('integral-checked')
